@@ -817,7 +817,7 @@ pub fn run_property(prop: &str, tier: &str) -> i32 {
     let plans: Vec<(&str, usize, bool)> = if thorough {
         vec![("solo", 4, prop == "C08"), ("chain", 3, false), ("errsrc", 3, false), ("nested", 3, false), ("empty", 4, false), ("aligned", 2, false), ("big", 2, false), ("dotdep", 3, false), ("afteronly", 3, false)]
     } else {
-        vec![("solo", 2, prop == "C08"), ("chain", 2, false), ("errsrc", 2, false), ("nested", 2, false), ("empty", 3, false), ("aligned", 2, false), ("dotdep", 2, false), ("afteronly", 2, false)]
+        vec![("solo", 2, prop == "C08"), ("chain", 2, false), ("errsrc", 2, false), ("nested", 2, false), ("empty", 3, false), ("aligned", 2, false), ("dotdep", 2, false), ("afteronly", 2, false), ("big", 1, false)]
     };
     rep.set("bounds", json!(plans.iter().map(|(n, d, pf)| format!("{n}: depth {d}{}", if *pf { " + every byte-prefix" } else { "" })).collect::<Vec<_>>()));
     rep.set("operations", json!("RUN(mode in build/needed/verify/clean, input selection, trailing-newline on/off), EDIT(source i), TAMPER(generated path, 11 kinds)"));
